@@ -24,6 +24,13 @@ package lowleveljpeg
 //@   expand
 //@   ensures forall(i, 0, 64, zigzag[i] < 64)
 
+// zigzag visits every coefficient exactly once (a table with a repeated entry would
+// drop a coefficient from every block and from the quantisation tables in the header).
+//@ lemma zigzagperm
+//@   prop C18
+//@   expand
+//@   ensures forall(j, 0, 64, exists(i, 0, 64, zigzag[i] == j))
+
 // div is "round to nearest, ties away from zero".
 //@ func div
 //@   prop C18
